@@ -92,6 +92,7 @@ def make_canary(text):
         pre = mask[max(0, m.start() - 40):m.start()]
         if re.search(r'\bspec\s+(\(checked\)\s+)?$', pre): continue
         if 'nonlinear_arith' in header: continue
+        if m.group(1) == 'clone': continue   # derived Clone impls share the name and carry no contract
         if not re.search(r'\b(ensures|requires)\b', header): continue
         if 'external_body' in text[max(0, m.start() - 200):m.start()].split('}')[-1]: continue
         # matching close brace
